@@ -301,8 +301,11 @@ impl<'a, S: Sut> Runner<'a, S> {
                     Err("image wider than the quire".into())
                 }
             }
-            Ev::MatDot { r, k, c, a, b } => {
+            Ev::MatDot { r, k, c, a, b, la, lb } => {
                 let (r, k, c) = (*r, *k, *c);
+                if *la > 3 || *lb > 3 {
+                    return Err("matdot: bad storage layout".into());
+                }
                 if r == 0 || k == 0 || c == 0 || r > 4 || c > 4 || k > 8 || a.len() != r * k || b.len() != k * c {
                     return Err("matdot: bad shape".into());
                 }
@@ -882,14 +885,20 @@ impl<'a, S: Sut> Runner<'a, S> {
                 // the observed quire itself is untouched
                 self.check_model(step, Clause::BitImage)
             }
-            Ev::MatDot { r, k, c, a, b } => {
+            Ev::MatDot { r, k, c, a, b, la, lb } => {
                 self.st.hit(Pr::ev_matdot);
+                if *la == 1 || *la == 2 || *lb == 1 || *lb == 2 {
+                    self.st.hit(Pr::matdot_view);
+                }
+                if *la == 3 && *lb == 3 && r == k && k == c && (*r == 2 || *r == 3) {
+                    self.st.hit(Pr::matdot_static);
+                }
                 self.any_special = true;
                 let (r, k, c) = (*r, *k, *c);
                 if k >= 4 {
                     self.st.hit(Pr::matdot_inner4);
                 }
-                let out = match catch(|| S::matdot(r, k, c, a, b)) {
+                let out = match catch(|| S::matdot(r, k, c, a, b, *la, *lb)) {
                     Ok(o) => o,
                     Err(m) => return Err(self.fail(Clause::PanicAcc, step, "quire_dot returns".into(), format!("panic: {m}"))),
                 };
